@@ -213,3 +213,47 @@ func TestReplayBitmapHintAfterSetAllocationMove(t *testing.T) {
 		vstat.Fail(t, "C12/bitmap/restore-continuation-differs/alloc/after-setallocation-move", "alloc(s0),alloc(s1),SetAllocation(s0,idx5), serialise/restore, alloc(s2): original %s, restored %s", ipn(pa), ipn(pr))
 	}
 }
+
+// KF-C12-12 / KF-C12-13: pkg/dhcpv6 passes the client DUID as raw bytes (string(clientIDOption.Data)) to
+// PoolAllocator.AllocateWithOptions as SubscriberID and DUID.  Two clients whose DUID-LLs differ in one MAC byte
+// >= 0x80 (not valid UTF-8): encoding/json writes U+FFFD for such bytes, so after MarshalJSON -> UnmarshalJSON
+// neither the IPAllocator nor the MemoryAllocationStore knows either client by its id, and the two records of the
+// store collapse into one.
+func TestReplayNonUTF8SubscriberIDs(t *testing.T) {
+	ctx := context.Background()
+	d1 := string([]byte{0x00, 0x03, 0x00, 0x01, 0x02, 0x00, 0x5e, 0x2f, 0x80, 0x01})
+	d2 := string([]byte{0x00, 0x03, 0x00, 0x01, 0x02, 0x00, 0x5e, 0x2f, 0x81, 0x01})
+	st := allocator.NewMemoryAllocationStore()
+	pa, err := allocator.NewPoolAllocatorWithType(allocator.PoolAllocatorConfig{PoolID: "v6", BaseNetwork: "2001:db8:200::/120", PrefixLength: 128, PoolType: allocator.PoolTypeIPv6Address, Store: st})
+	if err != nil {
+		t.Fatalf("INCONCLUSIVE constructor: %v", err)
+	}
+	for i, d := range []string{d1, d2} {
+		if _, err := pa.AllocateWithOptions(ctx, allocator.AllocateOptions{SubscriberID: d, DUID: d, IAID: uint32(i + 1)}); err != nil {
+			t.Fatalf("INCONCLUSIVE AllocateWithOptions: %v", err)
+		}
+	}
+	{ // the store
+		data, _ := json.Marshal(st)
+		r := allocator.NewMemoryAllocationStore()
+		uerr := json.Unmarshal(data, r)
+		a1, _ := st.GetBySubscriber(ctx, d1)
+		r1, _ := r.GetBySubscriber(ctx, d1)
+		vstat.Case(true, vstat.Hash("replay", "memstore-non-utf8"), nil, "replay:memstore-non-utf8-id")
+		if uerr != nil || len(a1) != len(r1) || st.Count() != r.Count() {
+			vstat.Fail(t, "C12/memstore/"+kindNonUTF8, "two DHCPv6 clients with DUIDs % x / % x: original store Count=%d GetBySubscriber(d1)=%d record(s); restored (err=%v) Count=%d GetBySubscriber(d1)=%d record(s)", d1, d2, st.Count(), len(a1), uerr, r.Count(), len(r1))
+		}
+	}
+	{ // the bitmap allocator PoolAllocator wraps
+		a, _ := allocator.NewIPAllocator("2001:db8:200::/120", 128)
+		a.Allocate(d1)
+		a.Allocate(d2)
+		data, _ := json.Marshal(a)
+		r := &allocator.IPAllocator{}
+		uerr := json.Unmarshal(data, r)
+		vstat.Case(true, vstat.Hash("replay", "bitmap-non-utf8"), nil, "replay:bitmap-non-utf8-id")
+		if uerr != nil || ipn(a.Lookup(d1)) != ipn(r.Lookup(d1)) || ipn(a.Lookup(d2)) != ipn(r.Lookup(d2)) {
+			vstat.Fail(t, "C12/bitmap/"+kindNonUTF8, "Allocate(% x), Allocate(% x), serialise/restore (err=%v): Lookup(d1) original %s restored %s; Lookup(d2) original %s restored %s", d1, d2, uerr, ipn(a.Lookup(d1)), ipn(r.Lookup(d1)), ipn(a.Lookup(d2)), ipn(r.Lookup(d2)))
+		}
+	}
+}
